@@ -273,6 +273,12 @@ pub fn c12(o: &Opts) -> Outcome {
             }
         }
     }
+    // coordinates that need more than 24 significant bits (a value rendered through a narrower float type differs)
+    for (k, size) in [(7usize, 999_999usize), (7, 1_048_575), (6, 1_000_001)] {
+        let recs: Vec<Vec<u8>> = vec![b"ACGTTGCAATTGACCAGT".to_vec(), b"GGATCAGGACCA".to_vec()];
+        cases += recs.len() as u64;
+        if let Some(w) = c12_batch(&recs, k, size, false, 2) { return Outcome { cases, witness: Some(w) }; }
+    }
     // many records (more than any per-batch record limit), one and many workers: row r belongs to record r
     {
         let recs: Vec<Vec<u8>> = (0..2300).map(|i| { let l = 2 + (i * 5 % 17) as usize; (0..l).map(|j| b"ACGT"[(i + j * j + i / 3) % 4]).collect() }).collect();
